@@ -152,14 +152,19 @@ _E = r"(?![A-Za-z0-9_])"
 SCHEMES = [(_mixed, _B + r"(\d)M" + _E, "<k>M for k < 3, V<k> otherwise"),
            (lambda i: f"PI{i}K", _B + r"PI(\d)K" + _E, "PI<k>K"),
            (lambda i: f"gene_{i}_x", _B + r"gene_(\d)_x" + _E, "gene_<k>_x"),
-           (lambda i: f"{i}M", _B + r"(\d)M" + _E, "<k>M")]
+           (lambda i: f"{i}M", _B + r"(\d)M" + _E, "<k>M"),
+           (lambda i: f"u_{i}", _B + r"u_(\d)" + _E, "u_<k> (the names y0 gives its own latent nodes)")]
 
 
 class naming:
     """with naming(k): ... - inside, GG.V / GG.vid use the k-th scheme (every plug-in builds its variables through GG.V)."""
 
-    def __init__(self, k):
+    def __init__(self, k, cf_nodes=False):
         self.fun, self.pat, self.label = SCHEMES[k % len(SCHEMES)]
+        # graphs whose nodes are counterfactual variables of one world (as the parallel-worlds graphs the library builds itself)
+        self.cf = cf_nodes and (k // len(SCHEMES)) % 3 == 0
+        if self.cf:
+            self.label += ", every node a counterfactual variable @ -W"
 
     def __enter__(self):
         import re
@@ -172,7 +177,11 @@ class naming:
         def vid_(v):
             m = pat.fullmatch(v.name)
             return int(m.group(1)) if m else int(v.name[1:])
-        mod.V = lambda i: Variable(fun(i))
+        if self.cf:
+            world = Variable("W")
+            mod.V = lambda i: Variable(fun(i)) @ world
+        else:
+            mod.V = lambda i: Variable(fun(i))
         mod.vid = vid_
         return self
 
@@ -187,14 +196,14 @@ class naming:
         return re.sub(self.pat, r"V\1", text)
 
 
-def renamed_differs(case, mine, outcome):
+def renamed_differs(case, mine, outcome, cf_nodes=False):
     """Run [outcome] (a function of nothing that builds its y0 objects through GG.V) under another naming scheme for one case in three and compare
     its text, names mapped back, with [mine]. Returns a description of the difference or None."""
     import zlib
     h = zlib.crc32(repr(case).encode())
     if h % 3:
         return None
-    nm = naming(h // 3)
+    nm = naming(h // 3, cf_nodes=cf_nodes)
     try:
         with nm:
             other = outcome()
@@ -279,12 +288,14 @@ def to_y0(g, warm=None, loose=False):
     return build_y0(g, V, warm, loose=loose)
 
 
-def present(items, salt):
+def present(items, salt, collection=False):
     """The same collection handed over the way different callers would: the parameters typed Iterable accept lists, tuples, sets, dict views and
     ONE-SHOT iterators alike (a function that walks its argument twice sees nothing the second time). The form is chosen by the case itself."""
     import zlib
     items = list(items)
     k = zlib.crc32(repr((salt, [str(x) for x in items])).encode()) % 8
+    if collection:          # a parameter typed Collection: sized, re-iterable containers only
+        k = (0, 1, 2, 3, 6)[k % 5]
     if k == 0:
         return list(items)
     if k == 1:
